@@ -2,7 +2,10 @@
 (* C08 judge.  Tr[1] is the header of one universe:
      {tid:-1, i:0, ev:"universe",
       members:[{c, p, v, r, truth:[leaf ids matching this package]}, ...],        versioned packages
-      pairs:  [{c, p, v:0, r, truth:[leaf ids matching the unversioned object]}]}  one per repo x (cat, pkg)
+      pairs:  [{c, p, v:0, r, truth:[leaf ids matching the unversioned object]}],  one per repo x listed (cat, pkg)
+      absent0:[member indices that are not in their repository initially (added later)]}
+   {tid, i, ev:"add"|"remove", k}   the repository was told (notify_add_package / notify_remove_package)
+                                    that member k was added / removed: the state variable absent follows
    Every other event is one real query:
      {tid, i, ev:"query", mode:"plain"|"asc"|"desc", unversioned:BOOL, stack:[repository indices],
       filt:{id, keep}   (id = 0: none; else the repository is filtered.tree: members whose leaf `id`
@@ -13,17 +16,20 @@
      SorterOrder                      a sorted query is not in sorter order
      Raised                           the query raised instead of answering                        *)
 EXTENDS RepoQuery, TraceLib
-VARIABLE l
+VARIABLES l, absent
 H == Tr[1]
 Pool(e) == IF e.unversioned THEN H.pairs ELSE H.members
 InRepo(e, m) == /\ \E k \in DOMAIN e.stack : e.stack[k] = m.r
                 /\ (e.filt.id = 0 \/ ((e.filt.id \in AsSet(m.truth)) = e.filt.keep))
+Held(e, k) == IF e.unversioned THEN PairHolds(H.members, absent, H.pairs[k]) ELSE k \notin absent
 Expected(e) == LET pool == Pool(e) IN
-    {k \in DOMAIN pool : InRepo(e, pool[k]) /\ Eval(e.t, AsSet(pool[k].truth))}
+    {k \in DOMAIN pool : Held(e, k) /\ InRepo(e, pool[k]) /\ Eval(e.t, AsSet(pool[k].truth))}
 Keys(e) == LET pool == Pool(e) IN [k \in DOMAIN e.got |-> <<pool[e.got[k]].c, pool[e.got[k]].p, pool[e.got[k]].v>>]
 
 Judge(e) ==
-    IF e.ev # "query" THEN {"UnknownEvent"}
+    IF e.ev = "add" THEN (IF e.k \in absent THEN {} ELSE {"OutsideDomain"})
+    ELSE IF e.ev = "remove" THEN (IF e.k \in DOMAIN H.members /\ e.k \notin absent THEN {} ELSE {"OutsideDomain"})
+    ELSE IF e.ev # "query" THEN {"UnknownEvent"}
     ELSE IF ~WellFormed(e.t) \/ \E k \in DOMAIN e.got : e.got[k] \notin DOMAIN Pool(e) THEN {"OutsideDomain"}
     ELSE LET pre == (IF e.unversioned THEN "Pairs_" ELSE "") \o (IF Len(e.stack) > 1 THEN "Stack_" ELSE "")
              exp == Expected(e)
@@ -34,10 +40,13 @@ Judge(e) ==
                  \cup (IF NoDuplicates(e.got) THEN {} ELSE {pre \o "Duplicate"})
                  \cup (IF e.mode = "plain" \/ InSorterOrder(Keys(e), e.mode) THEN {} ELSE {pre \o "SorterOrder"})
 
-TraceInit == l = 1
+TraceInit == l = 1 /\ absent = AsSet(H.absent0)
 TraceNext == /\ l < Len(Tr)
              /\ l' = l + 1
              /\ Report(Tr[l'].tid, Tr[l'].i, Judge(Tr[l']))
+             /\ absent' = CASE Tr[l'].ev = "add" -> AfterAdd(absent, Tr[l'].k)
+                             [] Tr[l'].ev = "remove" -> AfterRemove(absent, Tr[l'].k)
+                             [] OTHER -> absent
              /\ EndMark(l')
-TraceSpec == TraceInit /\ [][TraceNext]_l
+TraceSpec == TraceInit /\ [][TraceNext]_<<l, absent>>
 =========================================================================
